@@ -154,42 +154,50 @@ theorem entry_points_agree (d : Doc) (steps : List (Step N)) (i : Nat) :
 
 /-- C14f, one predicate: the body tokenizer (`parseBodyStringIntoBodyElements` before its constant folding: the
     element kinds in the order of `ALL_BODY_ELEMENT_RES`, groups, function calls with comma-separated arguments,
-    white space handling) reads the canonical text of every writable predicate — any size, any nesting of
-    groups and function arguments, any operator tree — as its in-order flat list. -/
-theorem parse_render_body (p : S N) (hw : S.wf nm p) : parseBody nm (renderS p) = some (flatten p.toP) :=
-  parseBody_render nm p hw
+    white space handling) reads the text of every writable predicate — any size, any nesting of groups and
+    function arguments, any operator tree, in every layout (`Style`: any `[ \t]*` at every site where the regular
+    expressions allow it, every letter-case spelling of the function and operator words, either quote) — as
+    its in-order flat list. -/
+theorem parse_render_body (st : Style) (π : List Nat) (p : S N) (hw : S.wf nm p) :
+    parseBody nm (renderS st π p) = some (flatten p.toP) :=
+  parseBody_render nm st π p hw
 
-/-- C14f, the bracket scan: `BRACKETED_SUBSET_RE` cuts the canonical text of a writable predicate out of its
-    `[…]` exactly — whatever brackets and quotes its string literals contain — and hands back what follows. -/
-theorem bracket_render (p : S N) (hw : S.wf nm p) (rest : Str) :
-    bracket ('[' :: (renderS p ++ ']' :: rest)) = some (renderS p, skipSp rest) :=
-  bracket_safe (render_bsafe nm p hw) rest
+/-- C14f, the bracket scan: `BRACKETED_SUBSET_RE` cuts the text of a writable predicate (with the white space
+    around it) out of its `[…]` exactly — whatever brackets and quotes its string literals contain — and hands
+    back what follows. -/
+theorem bracket_render (st : Style) (π : List Nat) (p : S N) (hw : S.wf nm p) (w1 w2 rest : Str)
+    (h1 : w1.all isSpTab = true) (h2 : w2.all isSpTab = true) :
+    bracket ('[' :: ((w1 ++ (renderS st π p ++ w2)) ++ ']' :: rest)) = some (w1 ++ (renderS st π p ++ w2), skipSp rest) :=
+  bracket_safe ((ws_bsafe h1).append ((render_bsafe nm st π p hw).append (ws_bsafe h2))) rest
 
 /-- C14f **parse_render**: for every writable expression — any number of steps, lead-in `/` or `//`, optional
-    axis, tag name or `*` in any letter case, any number of predicates of any size — tokenizing its canonical
-    text (`parseXPathStrIntoOperations` without the constant folding) yields exactly the flat form of its
-    syntax: the steps with lower-cased names and one in-order body-element list per predicate. -/
-theorem parse_render (ss : List (SurfStep N)) (hw : ∀ s ∈ ss, s.wf nm) :
-    parseExpr nm (renderExpr ss) = some ((flattenSteps (ss.map SurfStep.toSStep)).map PStep.ofStep) :=
-  parseExpr_render nm ss hw
+    axis, tag name or `*` in any letter case, any number of predicates of any size — and every layout of it
+    (white space before / after lead-ins, brackets, parentheses, commas and operators, between a function name
+    and its parenthesis, around the whole expression; any letter case of function names, word operators and axes;
+    either quote), tokenizing the text (`parseXPathStrIntoOperations` without the constant folding) yields exactly
+    the flat form of its syntax: the steps with lower-cased names and one in-order body-element list per
+    predicate. -/
+theorem parse_render (st : Style) (ss : List (SurfStep N)) (hw : ∀ s ∈ ss, s.wf nm) :
+    parseExpr nm (renderExpr st ss) = some ((flattenSteps (ss.map SurfStep.toSStep)).map PStep.ofStep) :=
+  parseExpr_render nm st ss hw
 
-/-- C14f: hence `XPathExpression(text)` (tokenize, then fold constants) on the canonical text is the compile step
-    of C14b/d on the flat form of the syntax. -/
-theorem compile_text_eq_compile_syntax (ss : List (SurfStep N)) (hw : ∀ s ∈ ss, s.wf nm) :
-    compileText nm (renderExpr ss) = compileSteps nm (flattenSteps (ss.map SurfStep.toSStep)) :=
-  compileText_render nm ss hw
+/-- C14f: hence `XPathExpression(text)` (tokenize, then fold constants) on the text, in any layout, is the
+    compile step of C14b/d on the flat form of the syntax. -/
+theorem compile_text_eq_compile_syntax (st : Style) (ss : List (SurfStep N)) (hw : ∀ s ∈ ss, s.wf nm) :
+    compileText nm (renderExpr st ss) = compileSteps nm (flattenSteps (ss.map SurfStep.toSStep)) :=
+  compileText_render nm st ss hw
 
 /-- C14f + C14d, **from text to denotation**: take any writable expression whose predicates respect the three
-    precedence levels, write it down canonically, give the TEXT to the engine (tokenize → fold constants →
+    precedence levels, write it down in any layout, give the TEXT to the engine (tokenize → fold constants →
     evaluate).  On every pre-order document and from every start collection the result is what the expression
     denotes (`specEval` of its abstract syntax); and when the constructor raises, some predicate of the expression
     has no value on any tag. -/
-theorem text_evaluate_eq_denotation (d : Doc) (hp : PreOrder d) (ss : List (SurfStep N))
+theorem text_evaluate_eq_denotation (st : Style) (d : Doc) (hp : PreOrder d) (ss : List (SurfStep N))
     (hs : ∀ s ∈ ss, s.wf nm) (hw : ∀ s ∈ ss, ∀ p ∈ s.preds, P.wf 3 p.toP = true) :
-    match compileText nm (renderExpr ss) with
+    match compileText nm (renderExpr st ss) with
     | some cs => ∀ start, evaluate nm d cs start = specEval nm d (ss.map SurfStep.toSStep) start
     | none => ∃ s ∈ ss, ∃ p ∈ s.preds, ∀ c, evalP nm c p.toP = none := by
-  rw [compileText_render nm ss hs]
+  rw [compileText_render nm st ss hs]
   have hw' : ∀ s ∈ ss.map SurfStep.toSStep, ∀ p ∈ s.preds, P.wf 3 p = true ∧ P.noNull p = true := by
     intro s' hs' p' hp'
     obtain ⟨s, hsm, rfl⟩ := List.mem_map.1 hs'
@@ -207,8 +215,17 @@ theorem text_evaluate_eq_denotation (d : Doc) (hp : PreOrder d) (ss : List (Surf
     obtain ⟨p, hpm, rfl⟩ := List.mem_map.1 hp'
     exact ⟨s, hsm, p, hpm, hev⟩
 
+/-- a layout that is nothing like the canonical one: tabs and spaces everywhere, upper-case words, single quotes
+    (the `x` in its white space is not used) -/
+def noisyStyle : Style where
+  ws := fun k π => if k = .opL then ['\t', 'x'] else if (π.length % 2 = 0) then [' ', '\t'] else [' ']
+  word := fun _ w => w.map (fun c => if c = 'a' then 'A' else if c = 'n' then 'N' else if c = 'd' then 'D' else
+    if c = 't' then 'T' else if c = 'c' then 'C' else if c = 'o' then 'O' else if c = 's' then 'S' else c)
+  single := fun _ => true
+
 /-- Non-vacuity of C14f: `//Div[@n + 2 = -.5 and contains(concat("a]b", text()), 'x"')][last()]/ancestor-or-self::*`
-    is writable whenever `float("2")` and `float("-.5")` are defined; the text is what one expects. -/
+    is writable whenever `float("2")` and `float("-.5")` are defined; its canonical text is what one expects, and
+    so is its text in another layout. -/
 example (two mhalf : N) (h2 : nm.parse ['2'] = some two) (h5 : nm.parse ['-', '.', '5'] = some mhalf) :
     let e : List (SurfStep N) := [
       { dbl := true, axis := none, name := ['D', 'i', 'v'],
@@ -218,17 +235,23 @@ example (two mhalf : N) (h2 : nm.parse ['2'] = some two) (h5 : nm.parse ['-', '.
                   .last] },
       { dbl := false, axis := some .ancestorOrSelf, name := ['*'], preds := [] }]
     (∀ s ∈ e, s.wf nm) ∧
-    renderExpr e = "//Div[@n + 2 = -.5 and contains(concat(\"a]b\", text()), 'x\"')][last()]/ancestor-or-self::*".toList := by
+    renderExpr Style.canon e = "//Div[@n + 2 = -.5 and contains(concat(\"a]b\", text()), 'x\"')][last()]/ancestor-or-self::*".toList ∧
+    renderExpr noisyStyle e =
+      " \t// Div \t[ \t@n\t+ \t2\t= -.5\tAND \tCONTAiNS ( CONCAT \t( \t'a]b' , TexT ( ) \t) \t, \t'x\"' ) \t] \t[ \tlAST \t( \t) \t] / ANCeSTOr-Or-Self::* \t".toList := by
   have d2 : digitChar 2 = '2' := by decide
   have d5 : digitChar 5 = '5' := by decide
-  refine ⟨?_, ?_⟩
+  refine ⟨?_, ?_, ?_⟩
   · intro s hs
     simp only [List.mem_cons, List.not_mem_nil, or_false] at hs
     rcases hs with rfl | rfl
     · simp [SurfStep.wf, tagNameOk, isNameStart, isNameChar, isAlpha, isDigit, S.wfs, S.wf, NumLit.wf, NumLit.text, d2, d5, h2, h5,
-        attrNameOk, strOk, quoteOf]
+        attrNameOk, strOk]
     · simp [SurfStep.wf, tagNameOk, S.wfs]
-  · simp [renderExpr, renderStep, renderPreds, renderS, renderArgs, axisPrefix, axisText, opText, NumLit.text, quoteOf, d2, d5]
+  · simp [renderExpr, renderSteps, renderStep, renderPreds, renderS, renderArgs, axisPrefix, axisWord, opText, NumLit.text, quoteWith,
+      d2, d5, Style.canon, Style.sp, Style.spell, Style.spellOp, isWordOp, sepOf, needL, needR, isSpTab, wText, wLast, wConcat, wContains]
+  · simp [renderExpr, renderSteps, renderStep, renderPreds, renderS, renderArgs, axisPrefix, axisWord, opText, NumLit.text, quoteWith,
+      d2, d5, noisyStyle, Style.sp, Style.spell, Style.spellOp, isWordOp, sepOf, needL, needR, isSpTab, wText, wLast, wConcat, wContains,
+      lowerChar]
 
 end
 
